@@ -771,6 +771,12 @@ func (mpt *MerklePatriciaTrie) insertAfterPathTraversal(value MPTSerializable, n
 		return mpt.insertNode(node, nnode)
 	case *ExtensionNode:
 		// an existing extension node becomes a branch + extension node (with one less path element as it's stored in the new branch) with value on the new branch
+		if len(nodeImpl.Path) == 1 {
+			// a one-character extension is absorbed by the new branch, its child hangs directly under the branch
+			nnode := NewFullNode(value)
+			nnode.PutChild(nodeImpl.Path[0], nodeImpl.NodeKey)
+			return mpt.insertNode(node, nnode)
+		}
 		_, ckey, err := mpt.insertExtension(nil, nodeImpl.Path[1:], nodeImpl.NodeKey)
 		if err != nil {
 			return nil, nil, err
